@@ -416,8 +416,38 @@ fn same_address_different_types(acc: &mut Acc) {
     }
 }
 
+/// A zero-sized object with an address of its own (the payload of an `Rc`, a `static`) is an object like any other:
+/// its second offer is a back-reference.
+fn zero_sized_objects(acc: &mut Acc) {
+    struct Nil;
+    static GLOBAL_NIL: Nil = Nil;
+    let shared = Rc::new(Nil);
+    let other = Rc::new(Nil);
+    acc.case(Some(0x2e50));
+    let (r, _) = monitored(None, || {
+        let mut sc = SerializationContext::new(Vec::new());
+        let mut flags = Vec::new();
+        for obj in [&*shared, &*other, &*shared, &GLOBAL_NIL, &*other, &GLOBAL_NIL] {
+            flags.push(sc.store_ref_or_object(obj).map_err(|e| classify(&e))?);
+        }
+        Ok((sc.into_output(), flags))
+    });
+    let want: Vec<u8> = [vu_bytes(0), vu_bytes(0), vu_bytes(1), vu_bytes(0), vu_bytes(2), vu_bytes(3)].concat();
+    match r {
+        Call::Ok((bytes, flags)) if bytes == want && flags == vec![true, true, false, true, false, false] => acc.count("zero_sized_objects_tracked_like_any_other"),
+        other => acc.violation(
+            "C10|zero_sized_objects".to_string(),
+            J::obj().with("check", J::s("C10")).with("mode", J::s("content")).with("expected", J::s(hex(&want))).with("got", J::s(match &other {
+                Call::Ok((b, f)) => format!("{} offers {f:?}", hex(b)),
+                o => o.class(),
+            })),
+        ),
+    }
+}
+
 pub fn c10(ctx: &mut Ctx, acc: &mut Acc) -> i32 {
     if ctx.shard == 0 {
+        zero_sized_objects(acc);
         same_address_different_types(acc);
     }
     // exhaustive: all rooted graphs with <= N nodes and out-degree <= 2 (unreachable parts do not matter and are skipped)
